@@ -50,6 +50,7 @@ def warm() -> None:
     wd = workdir(PID + "-warm")
     cached("graphops-mc-m3", lambda: _mc(wd))
     cached("graphops-gen-m3", lambda: _gen("GraphOps_Gen_M3.cfg", wd, workers=1))
+    cached("graphops-gen-m4c", lambda: _gen("GraphOps_Gen_M4c.cfg", wd, workers=1))
 
 
 def run(tier: str) -> int:
@@ -68,7 +69,10 @@ def run(tier: str) -> int:
     sim5 = _gen("GraphOps_Sim_RND.cfg", wd, workers=8, simulate=f"num={max(4, nsim // 8)}", depth=6,
                 tlc_seed=2000 + s)
     cap = 3000 if not thorough else 60000
-    behs = gen_m3["behs"] + _sample(sim3["behs"], cap, s) + _sample(sim5["behs"], cap, s)
+    # cyclic 4-node graphs, directed-path operation only (the cyclic branch of get_nodes_in_directed_paths)
+    gen_m4c, _ = cached("graphops-gen-m4c", lambda: _gen("GraphOps_Gen_M4c.cfg", wd, workers=1))
+    behs = gen_m3["behs"] + _sample(sim3["behs"], cap, s) + _sample(sim5["behs"], cap, s) + \
+        _sample(gen_m4c["behs"], 20000 if not thorough else 10 ** 7, s)
 
     # (3) replay through the real code, sharded
     n_orders = 3
@@ -121,7 +125,8 @@ def run(tier: str) -> int:
                       "invariants": ["TypeOK", "Laws", "NodesShrink"]},
         "behaviours": {"M3_depth1_exhaustive": len(gen_m3["behs"]),
                        "M3_walks_depth3": min(cap, len(sim3["behs"])),
-                       "N5_walks_depth4": min(cap, len(sim5["behs"]))},
+                       "N5_walks_depth4": min(cap, len(sim5["behs"])),
+                       "M4_cyclic_directed_paths": len(gen_m4c["behs"])},
         "replayed_steps": steps,
         "steps_per_operation": ops,
         "insertion_orders": n_orders,
